@@ -319,6 +319,8 @@ class LenEval:
             for seq, c in ((e.left, e.right), (e.right, e.left)):
                 if isinstance(seq, (ast.List, ast.Tuple)) and len(seq.elts) == 1:
                     cnt = c
+                if isinstance(seq, ast.Constant) and isinstance(seq.value, (bytes, str)) and len(seq.value) == 1:
+                    cnt = c
         if isinstance(e, ast.Call) and norm(e.func).split(".")[-1] == "repeat" and len(e.args) == 2:
             cnt = e.args[1]
         if cnt is None:
